@@ -121,13 +121,14 @@ def run_tlc(module, cfg, workdir, workers=8, timeout=600, simulate=None, extra_e
 
 
 def gen_behaviours(consts, workdir, invariants, workers=8, timeout=600, simulate=None, module="MC_Core.tla",
-                   emit="Emit", coverage=False):
+                   emit="Emit", coverage=False, const_keys=None):
     """Exhaustive (or simulated) exploration in gen mode.  Returns (result, behaviours)."""
     os.makedirs(workdir, exist_ok=True)
     cfg = os.path.join(workdir, "gen.cfg")
     c = dict(consts)
     c["Mode"] = "gen"
-    write_cfg(cfg, c, "Spec", invariants=list(invariants) + ([emit] if emit else []))
+    write_cfg(cfg, c, "Spec", invariants=list(invariants) + ([emit] if emit else []),
+              const_keys=const_keys or CONST_KEYS)
     beh = []
 
     def on_line(line):
@@ -140,7 +141,7 @@ def gen_behaviours(consts, workdir, invariants, workers=8, timeout=600, simulate
     return res, beh
 
 
-def validate_trace(consts, events, workdir, timeout=900, module="MC_Core.tla"):
+def validate_trace(consts, events, workdir, timeout=900, module="MC_Core.tla", const_keys=None):
     """Feed a concatenated trace (list of event dicts; must end with a reset/end record) to TLC in trace mode.
     Returns (result, [run results in order of the reset events that closed them])."""
     os.makedirs(workdir, exist_ok=True)
@@ -151,7 +152,8 @@ def validate_trace(consts, events, workdir, timeout=900, module="MC_Core.tla"):
     cfg = os.path.join(workdir, "trace.cfg")
     c = dict(consts)
     c["Mode"] = "trace"
-    write_cfg(cfg, c, "TraceSpec", invariants=[], view=None, postcondition="TraceAccepted")
+    write_cfg(cfg, c, "TraceSpec", invariants=[], view=None, postcondition="TraceAccepted",
+              const_keys=const_keys or CONST_KEYS)
     runs = []
     res_details = []
 
